@@ -238,6 +238,27 @@ def run_pit(case, ctx):
                                                    cost_smaller_masks=ca[nm],
                                                    cost_larger_masks=cb[nm],
                                                    masks_small=a, masks_large=b))
+    # ---- the cost depends on the architecture only: re-assigning the specification while the masks
+    # are pruned and then re-opening every mask must give the cost of the original model again ----
+    try:
+        assign(draw())
+        pit.cost_specification = specs
+        assign([[1.0] * len(v) for v in draw()])
+        for disc in (False, True):
+            pit.discrete_cost = disc
+            for nm in names:
+                want = c04.gap8_reference(ref_net, xs, seed_kinds, searchable) \
+                    if nm == 'gap8_latency' else \
+                    float(pitlib.net_cost(nm, ref_net, xs, only_names=searchable)[0])
+                got = float(get(nm))
+                ctx.mon('c12.fully_open')
+                if abs(got - want) > 1e-5 * max(1.0, abs(want)):
+                    ctx.violation('fully-open', dict(
+                        detail, sig=f'{nm}:disc{int(disc)}:after-spec-reassignment', cost=got,
+                        original=want))
+    except Exception as e:
+        ctx.violation('cost-crash', dict(detail, sig='reassign:' + type(e).__name__,
+                                         exc=repr(e)[:300]))
     if nontriv:
         ctx.nontriv(('pit', case['prog_seed'], case['family'], case['spec'], case['fold']))
     ctx.sample({'kind': 'pit', 'features': prog['features'], 'spec': case['spec'],
